@@ -1,6 +1,7 @@
 (* Props/C05.v - Clients decode exactly the values the application returned (text and binary). *)
 From Coq Require Import List Arith NArith ZArith Lia Bool.
 From MM Require Import Lib.Bytes Lib.Bitmap Lib.Decimal Model.Values Proofs.ValueProofs Gen.FactsResults Gen.FactsPackets.
+From MM Require Import Gen.FactsOutline.
 Import ListNotations.
 Open Scope N_scope.
 
@@ -16,6 +17,12 @@ Theorem c05_source_shape :
   packets_make_column_definition_41_ok = true /\ packets_make_column_count_ok = true /\ types_str_len_ok = true /\
   types_fixed_width_ok = true /\ types_uint_len_ok = true.
 Proof. repeat split; reflexivity. Qed.
+
+(* the modules this property rests on define the functions, classes, methods and class-level names they defined when the
+   model was transcribed - nothing added (an override, a new helper in the path), removed or renamed *)
+Theorem c05_module_outlines : translated_outline = true /\ outline_results_ok = true /\ outline_packets_ok = true /\ outline_connection_ok = true.
+Proof. repeat split; reflexivity. Qed.
+
 
 (* durations: the decomposition into sign / hours / minutes / seconds / microseconds loses nothing - for every
    timedelta: negative, more than 24 hours, fractional *)
